@@ -5,7 +5,7 @@ batched one fresh FakeSnow instance per (type, path).  Every cell (one value, on
 statement / ONE write_pandas call of the path, everything is read back with SELECT ... fetchall() and compared with
 the reference model mc/ref/c01_model.py (which derives the expectation from the input alone).
 
-Alphabets (written out in mc/ref/c01_model.py, echoed in evidence): TYPES (38 spellings of the types named in the
+Alphabets (written out in mc/ref/c01_model.py, echoed in evidence): TYPES (39 spellings of the types named in the
 property statement), values_for(type) (boundary values exactly representable in the type, each with a shape label),
 PATHS (10), PLACEMENTS (none / first / middle / last, plus one all-NULL cell per batch).
 quick = every type x every path x QUICK_SHAPES x {none, middle} + all-NULL;  thorough = the full product.
@@ -37,14 +37,27 @@ Not demanded (left out of the product, reasons in c01_model.allowed):
 Staging tables of the derived paths (INSERT..SELECT / CTAS / CLONE) are filled through a raw DuckDB cursor and then
 read through fakesnow: a cell whose *source* does not read back as the expected value is 'blocked' (counted, not
 judged) — that defect belongs to the read path / the column type and is reported by the direct paths.
+
+Class keys (classify): synonym group of the declared type, path, value class; one key per clause.  Listed classes are
+homogeneous (every member fails); a breakage of anything that passes today lands in a key that is not listed.
 """
 from __future__ import annotations
 
 import contextlib
 import json
+import os
+import time
 
-from mc import core, observe
-from mc.ref import c01_model as M
+# The property leans on conn.py setting DuckDB's TimeZone to UTC (anchor "TimeZone=UTC").  With the harness default
+# TZ=UTC that setting would never be exercised, so every C01 process (parent and spawned workers inherit it) runs with
+# a non-UTC *process* time zone: it is then fakesnow's own setting which makes TIMESTAMP_TZ values come back UTC.
+# DuckDB reads the process zone when the module is first imported, hence before anything imports duckdb.
+PROCESS_TZ = "Pacific/Auckland"
+os.environ["TZ"] = PROCESS_TZ
+time.tzset()
+
+from mc import core, observe  # noqa: E402
+from mc.ref import c01_model as M  # noqa: E402
 
 PID = "C01"
 LEVEL = "exploration"
@@ -76,6 +89,20 @@ def _instance(path):
             fs.duck_conn.close()
 
 
+_TZ_SEEN = []
+
+
+def _engine_default_tz():
+    """Time zone a fresh DuckDB instance starts with in this process (once per process)."""
+    if not _TZ_SEEN:
+        import duckdb
+
+        c = duckdb.connect()
+        _TZ_SEEN.append(c.execute("select current_setting('TimeZone')").fetchall()[0][0])
+        c.close()
+    return _TZ_SEEN[0]
+
+
 def _err(e):
     return ("err", f"{type(e).__module__}.{type(e).__name__}", str(getattr(e, "msg", None) or e).split("\n")[0][:200])
 
@@ -96,7 +123,11 @@ def _raw_insert(rawc, table, ts, rows):
 
 
 def _user_digest(fs):
-    c = observe.user_view(observe.catalog(fs))
+    # own raw cursor with a *session-local* UTC zone: the ground truth is read the same way whatever fakesnow has (or
+    # has not) configured, and 9999-12-31 UTC cannot overflow while being rendered in the process zone
+    rawc = observe.raw(fs)
+    rawc.execute("SET TimeZone='UTC'")
+    c = observe.user_view(observe.catalog(fs, cur=rawc))
     tabs = {f"{d}.{s}.{t}": sql for d, s, t, sql in c["tables"]}
     data = dict(c["data"])
     return tabs, data
@@ -385,6 +416,7 @@ def run_batch(item, acc: core.Acc, tier):
     cells = M.cells(ts, path, tier)
     out = execute_batch(ts, path, cells)
     local = core.Acc()
+    local.add("engine_default_timezone", _engine_default_tz())
     local.count("batches")
     local.count("statements", out["stmts"])
     local.obs((item, out["setup"], sorted(out["blocked"]), repr(out["readback"]), repr(sorted(out["cells"].items())), out["bystander"]))
@@ -414,7 +446,8 @@ def run(ctx: core.Ctx):
         "values outside the boundary alphabets are not explored (all of Unicode, all 2^64 integers)",
         "staging tables and bystanders are written through a raw DuckDB cursor; derived-path cells whose source does not "
         "read back correctly are counted as blocked, not judged",
-        "cells of one batch are independent (distinct row ids, one statement each); verified by replay of single cells",
+        "cells of one batch are independent (distinct row ids, one statement each)",
+        f"every execution runs with process time zone {PROCESS_TZ} (not UTC) so that fakesnow's own TimeZone=UTC setting is exercised",
     ]
     items = items_for(ctx.tier)
     res = ctx.pmap(run_batch, items, chunk=2)
@@ -441,6 +474,10 @@ def run(ctx: core.Ctx):
             for f in M.QUICK_SHAPES
         },
     }
+    zones = sorted(ctx.acc.sets.get("engine_default_timezone", ()))
+    ctx.extra["engine_default_timezone_in_workers"] = zones
+    if zones != [PROCESS_TZ]:
+        ctx.acc.note(f"process time zone is {zones}, not {PROCESS_TZ}: the TimeZone=UTC setting of conn.py was not exercised")
     ctx.extra["batches_planned"] = len(items)
     ctx.extra["cells_planned"] = sum(r["cells"] for _, r in res)
     ctx.extra["bound"] = "full product of the stated alphabets" + (" (quick: reduced value/placement alphabets)" if ctx.quick else "")
